@@ -53,7 +53,7 @@ class Check:
 
     def run(self, tier, seed):
         t_start = time.time()
-        wd = os.path.join(VERIF, '_work', self.pid)
+        wd = os.path.join(VERIF, '_work', self.pid + ('' if pl.REPO == '/repo' else '-' + re.sub(r'[^A-Za-z0-9]', '_', pl.REPO)))
         shutil.rmtree(wd, ignore_errors=True)
         os.makedirs(os.path.join(wd, 'replay'), exist_ok=True)
         rnd = random.Random(seed)
